@@ -401,7 +401,7 @@ func TestVerifC16Sched(t *testing.T) {
 		}
 		var cfg vsCfg
 		if err := json.Unmarshal(bytes.TrimSpace(raw), &cfg); err != nil || cfg.Kind != "sched" {
-			t.Skip("replay case is not a C16 scheduler configuration")
+			t.Fatalf("replay case is not a C16 scheduler configuration: %v", err)
 		}
 		vsRun(out, &cfg, models)
 		return
@@ -634,19 +634,9 @@ func vpIds(l discover.GpuInfoList) string {
 
 // vpVariant: which overhead comparisons the estimator of this tree implements (see the llm driver).
 func vpVariant(l *vpLoaded) int {
-	if v := os.Getenv("VERIF_C16_VARIANT"); v != "" {
-		return zzverif.EnvInt("VERIF_C16_VARIANT", 0)
-	}
-	old := os.Getenv("OLLAMA_GPU_OVERHEAD")
-	os.Setenv("OLLAMA_GPU_OVERHEAD", strconv.FormatUint(^uint64(0), 10))
-	defer os.Setenv("OLLAMA_GPU_OVERHEAD", old)
-	g := discover.GpuInfo{Library: "cuda", ID: "0"}
-	g.FreeMemory = 1 << 50
-	e := llm.EstimateGPULayers([]discover.GpuInfo{g}, l.f, nil, api.DefaultOptions(), 1)
-	if e.Layers > 0 {
-		return 0
-	}
-	return 1
+	// the model is run at the variant the tree is expected to implement (1: finding W1 is fixed in /repo) unless the
+	// caller pins another one; the llm driver reports what the tree really does (code_variant_<n>)
+	return zzverif.EnvInt("VERIF_C16_VARIANT", 1)
 }
 
 func vpReq(cfg *vpCfg, l *vpLoaded) *LlmRequest {
@@ -957,7 +947,7 @@ func TestVerifC16Pick(t *testing.T) {
 		}
 		var cfg vpCfg
 		if err := json.Unmarshal(bytes.TrimSpace(raw), &cfg); err != nil || cfg.Kind != "pick" {
-			t.Skip("replay case is not a C16 pick configuration")
+			t.Fatalf("replay case is not a C16 pick configuration: %v", err)
 		}
 		one(&cfg)
 		return
@@ -1462,7 +1452,7 @@ func TestVerifC16Load(t *testing.T) {
 		}
 		var cfg vlCfg
 		if err := json.Unmarshal(bytes.TrimSpace(raw), &cfg); err != nil || cfg.Kind != "load" {
-			t.Skip("replay case is not a C16 load-path history")
+			t.Fatalf("replay case is not a C16 load-path history: %v", err)
 		}
 		one(&cfg)
 		return
